@@ -377,7 +377,7 @@ pub fn run_all(ctx: &mut Ctx, replay: Option<&Path>) {
             SingleCase { a: Fb::of(g2[i % n]), b: Fb::of(g2[(i / n) % n]), c: Fb::of(g2[i / n / n]), k: Fb::of(scalars[i % scalars.len()]) }
         }),
     );
-    let n = ctx.tier.pick(40_000, 400_000);
+    let n = ctx.tier.pick(120_000, 600_000);
     ctx.random(&s, (fb_strategy(), fb_strategy(), fb_strategy(), prop_oneof![proptest::sample::select(vec![0.0, -0.0, 1.0, -1.0, 2.0, 0.5, 1e300, -1e300, 1e-300, f64::MAX]).prop_map(Fb::of), (-1e3f64..1e3).prop_map(Fb::of)]).prop_map(|(a, b, c, k)| SingleCase { a, b, c, k }), n);
     // multi: all pairs of vectors up to length 2 (3 thorough) over the 7-value grid (+ NaN, -inf for construction), third vector cycling
     let maxlen = ctx.tier.pick(2, 3);
@@ -394,6 +394,6 @@ pub fn run_all(ctx: &mut Ctx, replay: Option<&Path>) {
             MultiCase { a: vs2[i % nv].clone(), b: vs2[(i / nv) % nv].clone(), c: vs2[(i * 7 + 3) % nv].clone() }
         }),
     );
-    let n = ctx.tier.pick(20_000, 200_000);
+    let n = ctx.tier.pick(60_000, 300_000);
     ctx.random(&m, (vec_strategy(), vec_strategy(), vec_strategy()).prop_map(|(a, b, c)| MultiCase { a, b, c }), n);
 }
